@@ -2,7 +2,7 @@ SETUP = 'python3 tools/setup.py'
 ENGINES = [
     dict(name='native-bounded', path='tools/driver.py + native/**/*.rs', serves_properties=['C11', 'C12', 'C02'],
          kind_free_text='bounded stand-in: exhaustive enumeration of a stated finite input space on the compiled real code (test module appended to a scratch copy); used only where neither Verus nor Kani can reach the function'),
-    dict(name='verus-weave', path='tools/weave.py + contracts/*.vspec', serves_properties=['C13', 'C09'],
+    dict(name='verus-weave', path='tools/weave.py + contracts/*.vspec', serves_properties=['C13', 'C09', 'C06'],
          kind_free_text='deductive verification (Verus/Z3) of functions extracted verbatim from /repo on every run, contracts spliced in'),
     dict(name='kani-contracts', path='tools/driver.py + kani/<crate>/*.rs', serves_properties=['C02', 'C07', 'C10', 'C18'],
          kind_free_text='Kani/CBMC contract harnesses compiled into a scratch copy of the real crate as child modules (inductive-step pre/post over all well-formed states)'),
@@ -29,6 +29,9 @@ CHECKS = {
     'C18': dict(engine='kani-contracts', technique='Kani loop-free contract harness on outgoing_ping / handle_incoming_pingresp (Instant::now stubbed)',
         level='REDUCED SCOPE: complete proof of the ping-flag protocol only (unanswered ping reported at the next ping; answered ping never reported; collision timeout). All timing clauses of C18 are outside this family (tokio timers) and are NOT decided.',
         note='Trusted: Kani/CBMC, Instant::now stub. Timing not covered.'),
+    'C06': dict(engine='verus-weave', technique='Verus deductive proof of sequence postconditions on the verbatim AckLog methods (reply queue FIFO, QoS 2 hold-until-release) and of the Tracker wake-up table',
+        level='Unbounded proof at COMPONENT level: every AckLog operation appends exactly one ack (the given one) at the back and nothing else; a QoS 2 publish is held from PUBREC registration until the matching release pops it, once. The composition in Router::handle_device_payload / ack_device_data is NOT proved by this unit.',
+        note='Trusted: Verus/Z3, stand-ins for packet structs. Router glue unverified here.'),
     'C09': dict(engine='verus-weave', technique='Verus deductive proof of the window invariant and FIFO ack contracts on the verbatim Outgoing methods, plus the wake-up table of Tracker::try_ready',
         level='Unbounded proof for the ack side: WIN preserved by register_ack, strict FIFO, free_slots == 100 - len, WIN => ids non-zero and pairwise distinct, IncomingAck resumes an InflightFull/Caughtup connection. push_forwards (id assignment) is NOT yet under contract: the window bound on the push side is unverified in this revision.',
         note='Trusted: Verus/Z3, stand-in declarations of foreign field types. Router glue (forward_device_data, consume) unverified.'),
